@@ -80,7 +80,7 @@ func runOne(rq wk.Request) wk.Response {
 	rs.CodeNil = r.wd.Code == nil
 	rs.CodeLen = len(r.wd.Code)
 	if rq.WantResult {
-		rs.Result = fmt.Sprintf("err=%v name=%q author=%q strat=%q start=%d code=%v", r.err != nil, r.wd.Name, r.wd.Author, r.wd.Strategy, r.wd.Start, r.wd.Code)
+		rs.Result = fmt.Sprintf("err=%v name=%q author=%q strat=%q start=%d code=%v", r.err, r.wd.Name, r.wd.Author, r.wd.Strategy, r.wd.Start, r.wd.Code)
 	}
 	// settle loop: producer goroutines may need a moment to finish
 	for _, wait := range []time.Duration{0, time.Millisecond, 4 * time.Millisecond, 15 * time.Millisecond, 30 * time.Millisecond, 50 * time.Millisecond, 100 * time.Millisecond} {
